@@ -278,7 +278,21 @@ def op_parse(pkg, op):
         return {"exc": exc_info(e), "exc_attrs": {"status_code": getattr(e, "status_code", None), "content_hex": getattr(e, "content", b"").hex() if isinstance(getattr(e, "content", None), bytes) else None}}
 
 
-OPS = {"roundtrip": op_roundtrip, "import_all": op_import_all, "signature": op_signature, "construct": op_construct, "call": op_call, "get_kwargs": op_get_kwargs, "parse": op_parse}
+def op_multipart(pkg, op):
+    """from_dict then to_multipart of a generated (multipart body) model; serialises the returned mapping structurally (C18)"""
+    mod = importlib.import_module(pkg + ".models")
+    cls = getattr(mod, op["cls"])
+    try:
+        obj = cls.from_dict(unjson(op["data"]))
+    except BaseException as e:  # noqa
+        return {"dec_exc": exc_info(e)}
+    try:
+        return {"out": ser(obj.to_multipart())}
+    except BaseException as e:  # noqa
+        return {"enc_exc": exc_info(e)}
+
+
+OPS = {"roundtrip": op_roundtrip, "import_all": op_import_all, "signature": op_signature, "construct": op_construct, "call": op_call, "get_kwargs": op_get_kwargs, "parse": op_parse, "multipart": op_multipart}
 
 
 def main():
